@@ -10,7 +10,7 @@
 //     completed MarkAsConfirmed(<hash nobody uses>) is a barrier: every earlier
 //     event has been processed completely (goroutine spawned or not);
 //   - "the rebroadcast goroutine is gone" = runtime.NumGoroutine() is back at the
-//     baseline (start-of-run count + leaked hung calls + handler);
+//     baseline (count at the start of the case + calls that hung in this case + handler);
 //   - "the handler has exited" = the subscription's Cancel closure ran.
 package pushdrv
 
@@ -71,6 +71,23 @@ type world struct {
 	period    time.Duration
 	dummy     chainhash.Hash
 	r         *rand.Rand
+	base      int  // goroutines alive when the case started (calls of earlier cases that are blocked for ever included)
+	leak0     int  // value of `leaked` when the case started
+	subClosed bool // the block subscription's channel has been closed
+	hung      bool // a call did not return: end the case (every further call would wait out the watchdog)
+}
+
+// closesub: the source of block notifications goes away (subscription cancelled, block
+// manager torn down) while the Broadcaster keeps running: the channel it follows is closed.
+// Ticks, Broadcast and MarkAsConfirmed must go on working.
+func (w *world) closesub() {
+	w.t.Hit("op.closesub")
+	if w.inflight != nil {
+		w.t.Hit("branch.closesub.during-rebroadcast")
+	}
+	close(w.ntfn)
+	w.subClosed = true
+	w.t.Op("closesub", "ret")
 }
 
 // classOf: ground-truth class (property vocabulary, see rejcorpus) of a scripted result.
@@ -225,12 +242,30 @@ func newWorld(t *tr.W, r *rand.Rand, txs []*wire.MsgTx, tick, mapper bool) *worl
 			return err
 		}
 	}
+	// Baseline for this case.  Calls that hung in an earlier case either stay blocked for ever
+	// (MarkAsConfirmed without a quit alternative) or returned when that case's Stop closed quit
+	// (a Broadcast nobody served), so the count is taken afresh: wait until it has been stable
+	// for a few reads (wrapper goroutines of the previous case finish within microseconds).
+	w.base, w.leak0 = stableGoroutines(), leaked
 	w.b = pushtx.NewBroadcaster(cfg)
 	w.tick0 = time.Now()
 	if err := w.b.Start(); err != nil {
 		panic(err)
 	}
 	return w
+}
+
+func stableGoroutines() int {
+	n, same := runtime.NumGoroutine(), 0
+	for i := 0; i < 2000 && same < 5; i++ {
+		time.Sleep(200 * time.Microsecond)
+		if m := runtime.NumGoroutine(); m == n {
+			same++
+		} else {
+			n, same = m, 0
+		}
+	}
+	return n
 }
 
 // guard runs f under the watchdog; false = it never returned.
@@ -248,7 +283,7 @@ func guard(f func()) bool {
 }
 
 func (w *world) baseline() int {
-	n := base0 + leaked
+	n := w.base + (leaked - w.leak0)
 	if !w.quitSent {
 		n++ // handler
 	}
@@ -344,6 +379,7 @@ func (w *world) bcast(i int, res string) {
 		case <-timeout:
 			leaked++
 			hangsSeen++
+			w.hung = true
 			w.t.Op(op, "HANG")
 			return
 		}
@@ -359,6 +395,7 @@ func (w *world) confirm(i int) {
 	if guard(func() { w.b.MarkAsConfirmed(h) }) {
 		w.t.Op(fmt.Sprintf("confirm %d", i), "ret")
 	} else {
+		w.hung = true
 		w.t.Op(fmt.Sprintf("confirm %d", i), "HANG")
 	}
 }
@@ -570,12 +607,21 @@ func seqCase(t *tr.W, r *rand.Rand) {
 	t.Case("%s", header("seq", deps, mapper))
 	w := newWorld(t, r, txs, false, mapper)
 	steps := 4 + r.Intn(22)
-	for s := 0; s < steps && !w.quitSent; s++ {
+	for s := 0; s < steps && !w.quitSent && !w.hung; s++ {
 		if w.inflight != nil && r.Intn(100) < 45 {
 			w.rbres(resNames[pick(r, rbW)])
 			continue
 		}
-		switch pick(r, []int{40, 15, 35, 4}) {
+		choice := pick(r, []int{40, 15, 35, 4, 3})
+		if choice == 4 && (w.subClosed || hangsSeen >= 3) {
+			choice = 0
+		}
+		if choice == 2 && w.subClosed {
+			choice = 1 - r.Intn(2) // no block event can arrive on a closed channel
+		}
+		switch choice {
+		case 4:
+			w.closesub()
 		case 0:
 			w.bcast(r.Intn(n), resNames[pick(r, bcastW)])
 		case 1:
@@ -619,6 +665,10 @@ func tickCase(t *tr.W, r *rand.Rand) {
 	first := r.Intn(n)
 	w.bcast(first, "accepted")
 	pending[first] = true
+	// closing: the block subscription's channel is closed during the first rebroadcast; nothing is
+	// confirmed in that round, so that something is still pending and the NEXT TICK has to
+	// rebroadcast it although the subscription is gone
+	closing := hangsSeen < 3 && r.Intn(2) == 0
 	for round := 0; round < 2 && len(pending) > 0; round++ {
 		w.waitTick()
 		if w.inflight == nil {
@@ -626,7 +676,7 @@ func tickCase(t *tr.W, r *rand.Rand) {
 		}
 		for k := r.Intn(5); k > 0; k-- {
 			i := r.Intn(n)
-			if r.Intn(3) == 0 {
+			if r.Intn(3) == 0 && !(closing && round == 0) {
 				w.confirm(i)
 				delete(pending, i)
 			} else {
@@ -637,8 +687,18 @@ func tickCase(t *tr.W, r *rand.Rand) {
 				}
 			}
 		}
+		if w.hung {
+			break
+		}
+		if round == 0 && closing {
+			// from here on the ticker is the only thing that can start a rebroadcast
+			w.closesub()
+		}
 		for k := 0; w.inflight != nil && k < 64; k++ {
 			res := resNames[pick(r, rbW)]
+			if res == "confirmed" && closing && round == 0 {
+				res = "mempool"
+			}
 			if res == "confirmed" {
 				delete(pending, w.id(w.inflight.tx))
 			}
@@ -753,9 +813,12 @@ func Run(t *tr.W, thorough bool) {
 		ntick *= 3
 	}
 	for i := 0; i < nseq; i++ {
-		seqCase(t, r)
+		// one PRNG per case (seed, case index): what the implementation does in one case (map
+		// iteration order inside DependencySort changes how long a rebroadcast lasts) cannot
+		// shift the scripts of the later cases, so a finding recurs at the same case number
+		seqCase(t, tr.Rng(int64(150000+2*i)))
 		if i%(nseq/ntick+1) == 0 {
-			tickCase(t, r)
+			tickCase(t, tr.Rng(int64(150001+2*i)))
 		}
 	}
 	parseCase(t, r, nparse)
